@@ -59,6 +59,10 @@ const (
 	defaultValidIntervalSec = 60
 	defaultFetchTimeoutSec  = 300
 
+	// maxBlobSize is a sanity limit for the blob size reported by the registry. It keeps
+	// the chunk alignment arithmetic on offsets far away from overflowing int64.
+	maxBlobSize = 1 << 56
+
 	defaultMaxRetries  = 5
 	defaultMinWaitMSec = 30
 	defaultMaxWaitMSec = 300000
@@ -108,6 +112,10 @@ func (r *Resolver) Resolve(ctx context.Context, hosts source.RegistryHosts, refs
 	f, size, err := r.resolveFetcher(ctx, hosts, refspec, desc)
 	if err != nil {
 		return nil, err
+	}
+	if size < 0 || size > maxBlobSize {
+		// The size is reported by the registry (Content-Length / Content-Range).
+		return nil, fmt.Errorf("invalid blob size %d", size)
 	}
 	blobConfig := &r.blobConfig
 	return makeBlob(f,
